@@ -245,6 +245,13 @@ func guardedByIntra(ins ssa.Instruction, pred func(Rel) bool) bool {
 			return true
 		}
 	}
+	// deep facts: conditions materialised as boolean phis (`a && b`, named flags set in
+	// branches), `== true/false`, predicate helpers (x_c_facts.go / x_c10.go)
+	for _, r := range RelsAt(ins) {
+		if pred(r) {
+			return true
+		}
+	}
 	return false
 }
 
